@@ -12,7 +12,6 @@ fixed Coq text or dropped; a pinned text that no longer occurs exactly once also
 (docstrings are the only statements ignored)."""
 import ast
 import os
-import textwrap
 
 
 class TranslatorGap(Exception):
@@ -49,7 +48,7 @@ Definition lfilter {F A} (filt : F -> A -> F * A) (zf : F) (y : blk A) : blk A *
 RESERVED = set('''py_mod py_floordiv py_len_true new_pd np_full1 np_diff_fs lfilter getitem concat2 concat_list s0_of set_s0
   dat two an zlen length Blk An Some None outs chunk fuel st A F a_s0 a_fsd a_ch a_md mapAccum diff_from negb true false
   if then else let in match with end fun forall exists Definition Fixpoint Type Prop Set as return fix cofix at using
-  where mod'''.split())
+  where mod concat PipelineData getattr isinstance len np signal list coroutine Ellipsis'''.split())
 
 COROUTINE_SRC = ("def coroutine(func):\n    \"\"\"Decorator to auto-start a coroutine.\"\"\"\n\n    def start(*args, **kwargs):\n"
                  "        cr = func(*args, **kwargs)\n        next(cr)\n        return cr\n    return start")
@@ -87,7 +86,7 @@ SPEC = {
                 ('let', 'initial_state', 'blk', 'np_full1 new_samples init'),
             'target(np.diff(samples) * samples.fs)':
                 ('raw', 'match an samples with\n| None => None (* AttributeError: .fs *)\n| Some _ =>\n'
-                        'let outs := outs ++ [np_diff_fs sub samples] in\n{K}\nend', {})},
+                        '  let outs := outs ++ [np_diff_fs sub samples] in\n{K}\nend', {})},
         'notes': ['np.full(..) of the first chunk\'s shape with last axis 1 -> np_full1; np.diff(x) * x.fs -> np_diff_fs '
                   '(abstract subtraction `sub`, AttributeError on a plain array)']},
     'decimate': {
@@ -100,9 +99,22 @@ SPEC = {
             'zf = signal.lfilter_zi(b, a)': ('let', 'zf', 'F', 'zf0'),
             'if y.ndim == 2:\n    zf = zf[np.newaxis]': ('drop',),
             'y_filt, zf = signal.lfilter(b, a, y, zi=zf, axis=-1)':
-                ('raw', "let '(y_filt, zf) := lfilter filt zf y in\n{K}", {'y_filt': 'blk', 'zf': 'F'})},
+                ('raw', "let '(y_filt, zf) := lfilter filt zf y in\n{k}", {'y_filt': 'blk', 'zf': 'F'})},
         'notes': ['filter design / stability test / lfilter_zi are pinned: abstract initial state zf0; lfilter -> mapAccum '
                   'of the abstract one-sample recurrence `filt` (plain result, final state)']},
+}
+# the executable instance (stream positions as sample values, Stages/Model.v) used by the self-test of every translation
+CHECKS = {
+    'discard': 'Definition gcheck_discard (d : Z) h s0 sizes got : bool :=\n'
+               '  eqb_outs (outs_of (run (discard_gen_step d) (@discard_gen_init Z d) (inputs h s0 sizes))) got.',
+    'blocked': 'Definition gcheck_blocked (bs : Z) h s0 sizes got : bool :=\n'
+               '  eqb_outs (outs_of (run (blocked_gen_step bs) (blocked_gen_init bs) (inputs h s0 sizes))) got.',
+    'downsample': 'Definition gcheck_downsample (q : Z) h s0 sizes got : bool :=\n'
+                  '  eqb_outs (outs_of (run (downsample_gen_step q) (downsample_gen_init q) (inputs h s0 sizes))) got.',
+    'derivative': 'Definition gcheck_derivative h s0 sizes got : bool :=\n'
+                  '  eqb_outs (outs_of (run (derivative_gen_step ssub (-1)) None (inputs h s0 sizes))) got.',
+    'decimate': 'Definition gcheck_decimate (q : Z) h s0 sizes got : bool :=\n'
+                '  eqb_outs (outs_of (run (decimate_gen_step sfilt 0 q) None (inputs h s0 sizes))) got.',
 }
 TYPES = {'Z': 'Z', 'blk': 'blk A', 'optblk': 'option (blk A)', 'optZ': 'option Z', 'listblk': 'list (blk A)', 'F': 'F'}
 OPT_OF = {'blk': 'optblk', 'Z': 'optZ'}
@@ -144,6 +156,10 @@ def join(a, b, v):
     if OPT_OF.get(b) == a:
         return a
     raise TranslatorGap(f'`{v}` has types {a} and {b} on two branches')
+
+
+def ind(text):
+    return '\n'.join('  ' + l for l in text.split('\n'))
 
 
 def par(x):
@@ -286,7 +302,8 @@ class Coro:
             _, tmpl, sets = act
             for v, ty in sets.items():
                 env.set(v, ty)
-            return tmpl.replace('{K}', K(env))
+            k = K(env)
+            return tmpl.replace('{K}', ind(k)).replace('{k}', k)
         if has_yield([s]):
             if is_yield(s):                                           # x = (yield): positions were checked by shape()
                 env = env.copy()
@@ -325,7 +342,7 @@ class Coro:
                 self.may_fail = True
                 env = env.copy()
                 env.set(v, opt[1])
-                return f'match {opt[0]} with\n| None => None\n| Some {v} =>\n' + K(env) + '\nend'
+                return f'match {opt[0]} with\n| None => None\n| Some {v} =>\n' + ind(K(env)) + '\nend'
             t, ty = self.expr(val, env)
             if ty not in TYPES:
                 gap(s, f'value of type {ty} cannot be stored')
@@ -401,7 +418,7 @@ class Coro:
     def if_(self, s, rest, env, ret):
         head, pt, pf, tail, et, ef = self.test(s.test, env)
         if not rest:                                                  # last statement: both arms run into ret
-            return head + pt + self.block(s.body, et, ret) + pf + self.block(s.orelse, ef, ret) + tail
+            return head + ind(self.block(s.body, et, ret)) + pf + ind(self.block(s.orelse, ef, ret)) + tail
         # first pass: learn where each arm ends (types of the variables there) and whether it can raise
         seen = {0: [], 1: []}
         saved, self.may_fail = self.may_fail, False
@@ -415,8 +432,8 @@ class Coro:
             # an arm that always leaves the step (`x = (yield); continue`): the rest belongs to the other arm only
             if not seen[0] and not seen[1]:
                 gap(s, 'both arms of an `if` leave the step')
-            return (head + pt + self.block(s.body + (rest if seen[0] else []), et, ret) +
-                    pf + self.block(s.orelse + (rest if seen[1] else []), ef, ret) + tail)
+            return (head + ind(self.block(s.body + (rest if seen[0] else []), et, ret)) +
+                    pf + ind(self.block(s.orelse + (rest if seen[1] else []), ef, ret)) + tail)
         # joined on the variables assigned in either arm and defined at the end of both
         ends = seen[0] + seen[1]
         cand = sorted(assigned(s.body) | assigned(s.orelse) | ({'outs'} if self.calls_target(s) else set()))
@@ -429,15 +446,15 @@ class Coro:
             for e2 in ends[1:]:
                 ty[v] = join(ty[v], e2.ty[v], v)
         leaf = lambda e2: ('Some ' if fails else '') + tup([coerce(v, e2.ty[v], ty[v]) for v in vs])
-        both = head + pt + self.block(s.body, et, leaf) + pf + self.block(s.orelse, ef, leaf) + tail
+        both = head + ind(self.block(s.body, et, leaf)) + pf + ind(self.block(s.orelse, ef, leaf)) + tail
         after = env.copy()
         for v in vs:
             after.set(v, ty[v])
         self.may_fail = self.may_fail or fails
         K = self.block(rest, after, ret)
         if fails:
-            return f'match (\n{both}\n) with\n| None => None\n| Some {tup(vs)} =>\n{K}\nend'
-        return f'let {pat(vs)} := (\n{both}\n) in\n{K}'
+            return f'match (\n{ind(both)}\n) with\n| None => None\n| Some {tup(vs)} =>\n{ind(K)}\nend'
+        return f'let {pat(vs)} := (\n{ind(both)}\n) in\n{K}'
 
     def calls_target(self, s):
         return any(isinstance(n, ast.Call) and isinstance(n.func, ast.Name) and n.func.id in self.targets
@@ -468,15 +485,15 @@ class Coro:
         self.aux.append(
             f'Fixpoint {fname} {self.tparams} (fuel : nat) {self.binders} {bind}\n'
             f'  : option ({" * ".join(TYPES[env.ty[v]] for v in carried)}) :=\n'
-            f'if {c} then\nmatch fuel with\n| O => None (* the loop does not terminate *)\n| S fuel =>\n{body}\nend\n'
-            f'else Some {tup(carried)}.')
+            f'  if {c} then\n    match fuel with\n    | O => None (* the loop does not terminate *)\n    | S fuel =>\n{ind(ind(ind(body)))}\n    end\n'
+            f'  else Some {tup(carried)}.')
         self.may_fail = True
         for w in fuel.replace('(', ' ').replace(')', ' ').split():
             if w not in ('length', 'dat', 'S', 'Z.to_nat', 'zlen') and w not in env.ty:
                 raise TranslatorGap(f'fuel `{fuel}` mentions `{w}`, which is not defined at the loop')
         K = self.block(rest, env, ret)          # same types as at the entry (coerced at every back edge)
         return (f'match {fname} ({fuel}) {self.args} ' + ' '.join(extra + carried) +
-                f' with\n| None => None\n| Some {tup(carried)} =>\n{K}\nend')
+                f' with\n| None => None\n| Some {tup(carried)} =>\n{ind(K)}\nend')
 
     # ---------------------------------------------------------------- coroutine shape
     def end_step(self, env):
@@ -532,10 +549,7 @@ class Coro:
                 gap(loop, 'every pass of the loop must start by receiving exactly one chunk with `x = (yield)`')
             got = {}
             init = self.block(pro, penv, lambda e: got.setdefault('env', e) and '')
-            if init.strip() or 'env' not in got:
-                pass
             e0 = got['env']
-            vals = []
             for v, ty in self.state:
                 if v not in e0.ty:
                     raise TranslatorGap(f'state variable `{v}` is not set before the loop')
@@ -551,10 +565,10 @@ class Coro:
             senv = Env({**penv.ty, **dict(self.state)})
             step = self.block(lb, senv, self.end_step)
             names = [v for v, _ in self.state]
-            defs.append(f'Definition {self.name}_gen_init {self.tparams} {self.binders} : {sty} :=\n{init}.')
+            defs.append(f'Definition {self.name}_gen_init {self.tparams} {self.binders} : {sty} :=\n{ind(init)}.')
             defs += self.aux
             defs.append(f'Definition {self.name}_gen_step {self.tparams} {self.binders} (st : {sty}) (chunk : blk A)\n'
-                        f'  : {res} :=\nlet {pat(names)} := st in\nlet outs : list (blk A) := [] in\n{step}.')
+                        f'  : {res} :=\n' + ind(f'let {pat(names)} := st in\nlet outs : list (blk A) := [] in\n{step}') + '.')
         else:
             # P0; x = (yield); P1; while True: B; x = (yield)     (the step runs from one (yield) to the next)
             if len(ys) != 1 or not is_yield(pro[ys[0]]) or not lb or not is_yield(lb[-1]) \
@@ -574,7 +588,7 @@ class Coro:
             binds = ' '.join(f'({v} : {TYPES[t]})' for v, t in self.state if v != x)
             defs += self.aux
             defs.append(f'Definition {self.name}_gen_body {self.tparams} {self.binders} {binds} ({x} : blk A)\n'
-                        f'  : {res} :=\nlet outs : list (blk A) := [] in\n{body}.')
+                        f'  : {res} :=\n' + ind(f'let outs : list (blk A) := [] in\n{body}') + '.')
             e1 = penv.copy()
             e1.set(x, 'blk')
 
@@ -589,32 +603,12 @@ class Coro:
                         ' '.join('(' + coerce(v, e.ty[v], dict(self.state)[v]) + ')' for v in names) + f' {x}')
             first = self.block(p1, e1, enter)
             defs.append(f'Definition {self.name}_gen_step {self.tparams} {self.binders} (st : option ({sty})) (chunk : blk A)\n'
-                        f'  : {res} :=\nmatch st with\n| None =>\nlet {x} := chunk in\n{first}\n'
-                        f'| Some {pat(names).lstrip(chr(39))} =>\n{self.name}_gen_body {self.args} {" ".join(names)} chunk\nend.')
+                        f'  : {res} :=\n  match st with\n  | None =>\n' + ind(ind(f'let {x} := chunk in\n{first}')) +
+                        f'\n  | Some {pat(names).lstrip(chr(39))} =>\n    {self.name}_gen_body {self.args} {" ".join(names)} chunk\n  end.')
         for k, n in self.pinned_seen.items():
             if n != 1:
                 raise TranslatorGap(f'{self.name}: pinned statement occurs {n} times instead of once: `{k[:80]}`')
-        return '\n\n'.join(indent(d) for d in defs)
-
-
-def indent(text):
-    """re-indent the emitted text by nesting depth (purely cosmetic)"""
-    out, depth = [], 0
-    for line in text.split('\n'):
-        s = line.strip()
-        if not s:
-            continue
-        if s.startswith(('end', ') with', ') in')):
-            depth = max(depth - 1, 0)
-        pad = depth + (0 if s.startswith(('Definition', 'Fixpoint')) else 1)
-        if s.startswith(('|', 'else')) and not s.startswith('else Some'):
-            pad = max(pad - 1, 1)
-        out.append('  ' * pad + s if not s.startswith(('Definition', 'Fixpoint')) else s)
-        if s.endswith(('with', ':= (', 'match (')) and not s.startswith(') with'):
-            depth += 1
-        elif s.startswith(') with'):
-            depth += 1
-    return '\n'.join(out)
+        return '\n\n'.join(defs)
 
 
 def translate(repo, targets=('discard', 'blocked', 'downsample', 'derivative', 'decimate')):
@@ -629,11 +623,17 @@ def translate(repo, targets=('discard', 'blocked', 'downsample', 'derivative', '
             fns[n.name] = n
     if 'coroutine' not in fns or ast.unparse(fns['coroutine']) != COROUTINE_SRC:
         raise TranslatorGap('the @coroutine decorator is not the pinned one (create the generator, advance it to its first yield)')
-    for n in ast.walk(tree):
-        if isinstance(n, (ast.Assign, ast.AugAssign, ast.AnnAssign)) and n in tree.body:
-            for t in ast.walk(n):
-                if isinstance(t, ast.Name) and isinstance(t.ctx, ast.Store) and t.id in ('coroutine', 'concat', 'PipelineData'):
-                    raise TranslatorGap(f'{t.id} is rebound at module level')
+    bound = []
+    for n in tree.body:                     # coroutine / concat / PipelineData: bound exactly once, by their def / class
+        if isinstance(n, (ast.FunctionDef, ast.ClassDef, ast.AsyncFunctionDef)):
+            bound.append(n.name)
+        elif isinstance(n, (ast.Import, ast.ImportFrom)):
+            bound += [(a.asname or a.name).split('.')[0] for a in n.names]
+        else:
+            bound += [t.id for t in ast.walk(n) if isinstance(t, ast.Name) and isinstance(t.ctx, (ast.Store, ast.Del))]
+    for name in ('coroutine', 'concat', 'PipelineData'):
+        if bound.count(name) != 1 or '*' in bound:
+            raise TranslatorGap(f'{name} is not bound exactly once at module level')
     parts, info = [], {'functions': {}, 'notes': []}
     for name in targets:
         if name not in fns:
@@ -643,7 +643,8 @@ def translate(repo, targets=('discard', 'blocked', 'downsample', 'derivative', '
         info['functions'][name] = {'line': fns[name].lineno, 'state': [v for v, _ in SPEC[name]['state']],
                                    'pinned': len(SPEC[name]['pinned'])}
         info['notes'] += [f'{name}: {x}' for x in SPEC[name]['notes']]
-    return HEADER + '\n' + '\n\n'.join(parts) + '\n', info
+    checks = '(* ---------------- self-test instances ---------------- *)\n' + '\n'.join(CHECKS[t] for t in targets)
+    return HEADER + '\n' + '\n\n'.join(parts) + '\n\n' + checks + '\n', info
 
 
 if __name__ == '__main__':
